@@ -1,174 +1,9 @@
-//! C20, run-time part for the `const fn` constructors: `Fp::new` and `Fp::from_sign_and_limbs` are what
-//! `MontFp!` expands to. They use their own (const) CIOS multiplication by R^2, their own conditional
-//! subtraction and their own negation, built from the `adc!`/`sbb!`/`mac_with_carry!` macros — code the
-//! run-time arithmetic of C01 never touches. A `const fn` executes the same code at run time as in
-//! constant evaluation, so the monitor drives these constructors at run time over every configuration
-//! with integers no literal grid could enumerate, and compares with the integer reduced modulo p.
-use crate::c01::FC;
-use ark_std::rand::RngCore;
-use fadapt::*;
+//! C20, run-time part for the `const fn` constructors (see `fadapt::constrt`): every one of the 204
+//! prime-field configurations.
+use fadapt::constrt::*;
 use monitor::*;
-use oracle::{from_limbs, pow2, to_limbs, One, UInt, Zero};
 
-pub const RULE: &str = "cases = (field configuration, const constructor, integer); integers in [0, 2^(64N)): structural (0, 1, p-1, p, p+1, \
-2p-1, 2^(64k)+-1, 2^(64N)-1), limb-edge-biased, uniform, and crafted so that the Montgomery form of the result (or the value before the \
-conditional subtraction) shares limbs with p / sits next to p (borrow and carry chains of the const helpers); expected = integer mod p \
-(negated for a negative sign) from num-bigint; non-trivial = integer != 0; distinct = digest of (config, constructor, sign, limbs)";
-
-const C_GE_P: &str = "const ctor: integer >= p";
-const C_NEG: &str = "const ctor: negative sign";
-const C_SHORT: &str = "const ctor: limb slice shorter than N";
-const C_ZERO: &str = "const ctor: zero (also with a negative sign)";
-const C_SHARE: &str = "const ctor: Montgomery form of the result shares a limb with p (borrow chain in the const negation)";
-const C_PRE: &str = "const ctor: crafted so that the product before the conditional subtraction may equal p + k*2^(64i) - d";
-const C_MAX: &str = "const ctor: integer 2^(64N) - 1";
-
-/// limbs correlated with the modulus: each limb is p_i, p_i +- 1, 0, all-ones or random
-fn near_p_limbs(rng: &mut Rng, pl: &[u64]) -> Vec<u64> {
-    let mode = rng.next_u32() % 4;
-    pl.iter()
-        .enumerate()
-        .map(|(i, &x)| {
-            let r = rng.next_u32() % 16;
-            match (mode, r) {
-                (0, _) if i > 0 && r < 12 => x,
-                (_, 0..=5) => x,
-                (_, 6) => x.wrapping_add(1),
-                (_, 7) => x.wrapping_sub(1),
-                (_, 8) => 0,
-                (_, 9) => u64::MAX,
-                (_, 10) => x.wrapping_add(rng.next_u32() as u64 % 4),
-                (_, 11) => x.wrapping_sub(rng.next_u32() as u64 % 4),
-                _ => rng.next_u64(),
-            }
-        })
-        .collect()
-}
-
-fn one_int(fc: &FC, rep: &mut Report, int: &UInt, tag: Option<&'static str>) {
-    let n = fc.n;
-    debug_assert!(int < &fc.full);
-    let limbs = to_limbs(int, n);
-    let val = int % &fc.p;
-    let neg = if val.is_zero() { UInt::zero() } else { &fc.p - &val };
-    let nt = !int.is_zero();
-    if let Some(t) = tag {
-        rep.class(t);
-    }
-    rep.class_if(int >= &fc.p, C_GE_P);
-    rep.class_if(int.is_zero(), C_ZERO);
-    rep.class_if(*int == &fc.full - UInt::one(), C_MAX);
-    let dg = mix(fc.cd, digest(&limbs));
-    let d = |what: &str| json!({"config": fc.name, "constructor": what, "integer_limbs": hex_limbs(&limbs), "integer": int.to_string()});
-    // Fp::new
-    if let Some(r) = rep.total(&fc.sig("Fp::new (const path)", "total"), || d("Fp::new"), || fc.pf.const_new(&limbs)) {
-        rep.eval(mix(dg, 1), nt);
-        rep.op("Fp::new");
-        fc.chk(rep, "Fp::new (const path)", &r, &val, &[&limbs]);
-    }
-    // from_sign_and_limbs with the full slice and with the shortest slice that holds the integer
-    let used = limbs.iter().rposition(|&x| x != 0).map(|i| i + 1).unwrap_or(0);
-    let mut lens = vec![n];
-    if used < n {
-        lens.push(used);
-        rep.class(C_SHORT);
-        if used + 1 < n {
-            lens.push(used + 1);
-        }
-    }
-    for len in lens {
-        for positive in [true, false] {
-            let op = if positive { "Fp::from_sign_and_limbs(+)" } else { "Fp::from_sign_and_limbs(-)" };
-            let Some(r) = rep.total(&fc.sig(op, "total"), || d(op), || fc.pf.const_sign_limbs(positive, &limbs[..len])) else { continue };
-            rep.eval(mix(dg, 2 + 2 * len as u64 + positive as u64), nt);
-            rep.op(op);
-            rep.class_if(!positive, C_NEG);
-            fc.chk(rep, op, &r, if positive { &val } else { &neg }, &[&limbs]);
-        }
-    }
-}
-
-pub fn run_field(fc: &FC, rep: &mut Report, rng: &mut Rng, args: &Args) {
-    rep.config(fc.name);
-    let n = fc.n;
-    let p = &fc.p;
-    let one = UInt::one();
-    let pl = fc.pf.modulus();
-    // ---- structural integers
-    let mut st: Vec<UInt> = vec![UInt::zero(), one.clone(), UInt::from(2u8), p - &one, p.clone(), p + &one, &fc.full - &one, &fc.full - UInt::from(2u8), (p - &one) >> 1usize, fc.r.clone(), (&fc.r * &fc.r) % p, fc.rinv.clone()];
-    let two_p = p + p;
-    if two_p < fc.full {
-        st.push(&two_p - &one);
-        st.push(two_p.clone());
-        st.push(&two_p + &one);
-    }
-    for k in 1..n {
-        let b = pow2(64 * k);
-        st.push(&b - &one);
-        st.push(b.clone());
-        st.push(&b + &one);
-        st.push(&fc.full - &b);
-    }
-    st.retain(|x| x < &fc.full);
-    for x in &st {
-        one_int(fc, rep, x, None);
-    }
-    let small = p.bits() <= 16;
-    if small {
-        // tiny moduli: every integer below 4p (capped)
-        let top = (UInt::from(4u8) * p).min(UInt::from(1200u32));
-        let mut x = UInt::zero();
-        while x < top {
-            one_int(fc, rep, &x, None);
-            x += &one;
-        }
-    }
-    let iters = args.pick(if small { 300 } else { 1500 }, if small { 5_000 } else { 60_000 }) * 6 / (5 + n);
-    for it in 0..iters {
-        match it % 6 {
-            0 => {
-                // the Montgomery form x of the value is correlated with p: const_neg computes p - x limb by limb
-                let x = from_limbs(&near_p_limbs(rng, &pl)) % p;
-                let xl = to_limbs(&x, n);
-                let shares = (1..n).any(|i| xl[i] == pl[i]);
-                let a = (&x * &fc.rinv) % p;
-                one_int(fc, rep, &a, if shares { Some(C_SHARE) } else { None });
-                // the same residue written as an integer >= p
-                let a2 = &a + p;
-                if a2 < fc.full && rng.next_u32() % 2 == 0 {
-                    one_int(fc, rep, &a2, None);
-                }
-            },
-            1 => {
-                // m in [p, 2p) correlated with p: if the CIOS product lands on m (and not on m - p) the conditional
-                // subtraction runs its borrow chain over limbs equal to those of p
-                let y = from_limbs(&near_p_limbs(rng, &pl));
-                let m = if &y >= p && y < two_p { y } else { p + (y % p) };
-                let a = ((&m % p) * &fc.rinv) % p;
-                one_int(fc, rep, &a, Some(C_PRE));
-            },
-            2 | 3 => {
-                let x = from_limbs(&edge_limbs(rng, n));
-                one_int(fc, rep, &x, None);
-            },
-            4 => {
-                // next to a multiple of p
-                let k = UInt::from(rng.next_u32() % 8);
-                let base = (&k * p) % &fc.full;
-                let d = UInt::from(rng.next_u32() % 3);
-                let x = if rng.next_u32() % 2 == 0 { (&base + &d) % &fc.full } else if base >= d { &base - &d } else { base };
-                one_int(fc, rep, &x, None);
-            },
-            _ => {
-                let l: Vec<u64> = (0..n).map(|_| rng.next_u64()).collect();
-                one_int(fc, rep, &from_limbs(&l), None);
-            },
-        }
-        if it == 0 {
-            rep.sample(&format!("c20rt/{}", fc.name), || json!({"config": fc.name, "modulus": fc.p.to_string(), "constructors": "Fp::new, Fp::from_sign_and_limbs(+/-, slices of every admissible length)"}));
-        }
-    }
-}
+pub use fadapt::constrt::RULE;
 
 pub fn items(_args: &Args) -> Vec<Item> {
     let mut v = vec![];
@@ -177,15 +12,16 @@ pub fn items(_args: &Args) -> Vec<Item> {
     for c in all {
         let n = c.pf.n();
         v.push(Item::new(format!("c20rt/{}", c.name), move |rep, rng, args| {
-            let fc = FC::new(&c);
-            for r in [C_GE_P, C_NEG, C_ZERO, C_MAX, C_PRE] {
+            let variant = if c.hand {
+                "hand"
+            } else if c.name.contains("/d") {
+                "derive"
+            } else {
+                "shipped"
+            };
+            let fc = FC::new(&c.name, variant, c.pf.as_ref());
+            for r in required(n) {
                 rep.require_here(r);
-            }
-            if n >= 2 {
-                rep.require_here(C_SHORT);
-            }
-            if n >= 3 {
-                rep.require_here(C_SHARE);
             }
             run_field(&fc, rep, rng, args);
         }));
